@@ -316,11 +316,11 @@ func parseDecimal(s string, prec uint) (*big.Float, error) {
 		// exact value once, to the format itself.
 		switch prec {
 		case 53:
-			if f, _ := r.Float64(); math.Abs(f) < 0x1p-1022 {
+			if f, _ := r.Float64(); math.Abs(f) <= 0x1p-1022 {
 				x.SetFloat64(f)
 			}
 		case 24:
-			if f, _ := r.Float32(); f < 0x1p-126 && f > -0x1p-126 {
+			if f, _ := r.Float32(); f <= 0x1p-126 && f >= -0x1p-126 {
 				x.SetFloat64(float64(f))
 			}
 		}
